@@ -779,29 +779,24 @@ func pat(vs []string) string {
 	return "'(" + strings.Join(vs, ", ") + ")"
 }
 
-// prints stmts followed by the result tuple
+// prints stmts followed by the result tuple.  A data-dependent `if` is printed in TREE form: the statements that
+// follow it are continued inside both branches (if c then (A; rest) else (B; rest)), so that the body is a tree of
+// `let` and `if` with the result tuple at the leaves - this is what the proofs execute symbolically, path by path.
 func (lp *limbPrinter) body(stmts []lstmt, result []string, ind string) string {
 	var b strings.Builder
-	for _, s := range stmts {
+	for i, s := range stmts {
 		switch t := s.(type) {
 		case lAssign:
 			fmt.Fprintf(&b, "%slet %s := %s in\n", ind, t.dst, lp.ex(t.e))
 		case lCall:
 			fmt.Fprintf(&b, "%slet %s := %s %s in\n", ind, pat(t.outs), t.fn, strings.Join(t.ins, " "))
 		case lIf:
-			m := map[string]bool{}
-			assigned(t.then, t.localsT, m)
-			assigned(t.els, t.localsE, m)
-			var vs []string
-			for k := range m {
-				vs = append(vs, k)
-			}
-			sort.Strings(vs)
-			if len(vs) == 0 {
-				continue
-			}
-			fmt.Fprintf(&b, "%slet %s :=\n%s  if %s then\n%s%s  else\n%s%s  in\n", ind, pat(vs), ind, lp.ex(t.cond),
-				lp.body(t.then, vs, ind+"    "), ind, lp.body(t.els, vs, ind+"    "), ind)
+			rest := stmts[i+1:]
+			thenAll := append(append([]lstmt{}, t.then...), rest...)
+			elseAll := append(append([]lstmt{}, t.els...), rest...)
+			fmt.Fprintf(&b, "%sif %s then\n%s%selse\n%s", ind, lp.ex(t.cond),
+				lp.body(thenAll, result, ind+"  "), ind, lp.body(elseAll, result, ind+"  "))
+			return b.String()
 		}
 	}
 	fmt.Fprintf(&b, "%s%s\n", ind, tuple(result))
